@@ -162,6 +162,20 @@ type W6T struct {
 	Z  int64       `json:"z"`
 }
 
+type W7T struct {
+	F []float32          `json:"f"`
+	D []float64          `json:"d"`
+	G []float32          `json:"g"`
+	B []bool             `json:"b"`
+	I []int32            `json:"i"`
+	S []int16            `json:"s"`
+	X [][4]byte          `json:"x"`
+	M map[string]float64 `json:"m"`
+	N map[string]bool    `json:"n"`
+	K map[string]float32 `json:"k"`
+	Z int64              `json:"z"`
+}
+
 type W5T struct {
 	A []*int64 `json:"a"`
 	S string   `json:"s"`
@@ -222,6 +236,11 @@ func init() {
 		{"W6", rec("W6", fld("i", un(P("null"), P("int"))), fld("j", un(P("long"), P("null"))), fld("f", un(P("null"), P("float"))), fld("d", un(P("null"), P("double"))),
 			fld("b", un(P("null"), P("boolean"))), fld("s", un(P("null"), P("string"))), fld("t", un(P("null"), timeStr())), fld("pf", un(P("null"), P("float"))), fld("z", P("long"))),
 			reflect.TypeFor[W6T]()},
+		// W7: arrays and maps of every fixed-width item (block-wise copies,
+		// counts multiplied by an item width)
+		{"W7", rec("W7", fld("f", arr(P("float"))), fld("d", arr(P("double"))), fld("g", arr(P("double"))), fld("b", arr(P("boolean"))), fld("i", arr(P("int"))), fld("s", arr(P("int"))),
+			fld("x", arr(fixed("W7x", 4))), fld("m", mp(P("double"))), fld("n", mp(P("boolean"))), fld("k", mp(P("float"))), fld("z", P("long"))),
+			reflect.TypeFor[W7T]()},
 	}
 }
 
@@ -255,6 +274,122 @@ var timeDict = []string{
 	// brackets must still check what is left)
 	"\"", "\"\"", "'", "''", "{", "[", "-", "+", "T", "Z", ".", ",", " ", "0", "\"2006-01-02T15:04:05Z", "2006-01-02T15:04:05Z\"", "\"2006-01-02T15:04:05Z\"",
 	"2006-01-02T15:04:05.1234567890Z", "2006-01-02T15:04:05.12345678901234567890+01:00", "2006-01-02t15:04:05z", "2006-01-02 15:04:05Z", "+2006-01-02T15:04:05Z", "-006-01-02T15:04:05Z",
+}
+
+// timeText2 derives a timestamp text from v: a well-formed RFC 3339 time in
+// which exactly one component (a date or clock field, the fraction, or the
+// zone's sign, hours, separator or minutes) is replaced by a boundary or
+// malformed value. The parser is hand-written, field by field; the dictionary
+// above cannot hold every (field, value) pair.
+func timeText2(v int) string {
+	t, _ := timeText2Parts(v)
+	return t
+}
+
+func timeText2Kind(v int) string {
+	_, k := timeText2Parts(v)
+	return k
+}
+
+// per-field values: the boundaries of the field's own range, then malformed ones
+var tt2Field = [][]string{
+	{"0000", "0001", "9999", "1969", "-001", "+200", "20a6", "206", "20066", " 006", "\xd9\xa3006"}, // year
+	{"00", "00", "01", "12", "13", "19", "99", "1", "", "1a", "-1", "001"},                          // month
+	{"00", "00", "01", "28", "29", "30", "31", "32", "99", "3", "", "3a", "-1"},                     // day
+	{"00", "23", "24", "25", "99", "2", "", "2a", "-1"},                                             // hour
+	{"00", "59", "60", "61", "99", "5", "", "5a", "-1"},                                             // minute
+	{"00", "59", "60", "61", "99", "5", "", "5a", "-1"},                                             // second
+}
+var tt2ZoneH = []string{"00", "01", "12", "13", "14", "14", "15", "23", "24", "30", "99", "8", "", "-1", "1a", "008"}
+var tt2ZoneM = []string{"00", "01", "15", "30", "45", "59", "60", "99", "0", "", "000", "-1", "3a"}
+var tt2Sep = []string{"", "::", ".", " ", "-"}
+
+func timeText2Parts(v int) (string, string) {
+	x := splitmix(uint64(v)*0x9e3779b97f4a7c15 + 77)
+	next := func(n int) int {
+		x = splitmix(x)
+		return int(x % uint64(n))
+	}
+	parts := []string{"2006", "-", "01", "-", "02", "T", "15", ":", "04", ":", "05"}
+	frac := []string{"", ".5", ".123", ".123456789", ",25"}[next(5)]
+	sign := []string{"+", "-"}[next(2)]
+	zh, zsep, zm := "08", ":", "00"
+	zoneZ := next(3) == 0
+	kind := ""
+	switch which := next(10); {
+	case which < 4: // a date or clock field
+		fi := next(6)
+		vals := tt2Field[fi]
+		parts[2*fi] = vals[next(len(vals))]
+		kind = fmt.Sprintf("field%d=%q", fi, parts[2*fi])
+		if next(4) == 0 {
+			// date only
+			return strings.Join(parts[:5], ""), kind + "/date-only"
+		}
+	case which < 5: // a separator
+		si := []int{1, 3, 5, 7, 9}[next(5)]
+		parts[si] = []string{"", " ", ":", "-", "T", "t", "/", "--"}[next(8)]
+		kind = fmt.Sprintf("sep%d=%q", si/2, parts[si])
+	case which < 6: // the fraction
+		frac = []string{".", ",", "..5", ".5.", ".-5", ".1234567890", ".12345678901234567890123", ". 5", ".5 ", ".a"}[next(10)]
+		kind = fmt.Sprintf("frac=%q", frac)
+	default: // the zone
+		zoneZ = false
+		switch next(5) {
+		case 0:
+			zh = tt2ZoneH[next(len(tt2ZoneH))]
+		case 1:
+			zm = tt2ZoneM[next(len(tt2ZoneM))]
+		case 2, 3:
+			zh = tt2ZoneH[next(len(tt2ZoneH))]
+			zm = tt2ZoneM[next(len(tt2ZoneM))]
+		default:
+			zsep = tt2Sep[next(len(tt2Sep))]
+		}
+		if next(8) == 0 {
+			sign = []string{"", "++", "+-", " ", "z", "Z+"}[next(6)]
+		}
+		kind = fmt.Sprintf("zone=%q", sign+zh+zsep+zm)
+	}
+	t := strings.Join(parts, "") + frac
+	if zoneZ {
+		t += "Z"
+	} else {
+		t += sign + zh + zsep + zm
+	}
+	return t, kind
+}
+
+// ---------------------------------------------------------------------------
+// Timestamp text entry point: a record of one plain, one nullable and one
+// null.Time timestamp, each carrying the same text.
+
+type TimeTextT struct {
+	T time.Time  `json:"t"`
+	P *time.Time `json:"p"`
+	N null.Time  `json:"n"`
+}
+
+var timeTextCodec avro.Codec
+
+func timeTextBody(t string) []byte {
+	var b []byte
+	b = ref.AppendLong(b, int64(len(t)))
+	b = append(b, t...)
+	for i := 0; i < 2; i++ {
+		b = ref.AppendLong(b, 1)
+		b = ref.AppendLong(b, int64(len(t)))
+		b = append(b, t...)
+	}
+	return b
+}
+
+func timeTextFor(f C06Fault) (string, string) {
+	if f.Class == "dict" {
+		i := f.Val % len(timeDict)
+		return timeDict[i], fmt.Sprintf("dict[%d]", i)
+	}
+	return timeText2Parts(f.Val)
 }
 
 func c06BuildArtifact(pl *C06Plan) (*c06Artifact, error) {
@@ -361,8 +496,8 @@ func (a *c06Artifact) render(schemaJSON string, blocks []c06Block, stale map[int
 // ---------------------------------------------------------------------------
 // Replacement classes
 
-var varClasses = []string{"neg1", "negbig", "zero", "one", "maxi32", "maxi32+1", "mini32-1", "maxi64", "mini64", "overflow10", "varint11", "unterminated", "plus1", "minus1", "2^20", "2^40", "negate", "pairbig"}
-var bodyClasses = []string{"random", "truncate", "timestamp"}
+var varClasses = []string{"neg1", "negbig", "zero", "one", "maxi32", "maxi32+1", "mini32-1", "maxi64", "mini64", "overflow10", "varint11", "unterminated", "plus1", "minus1", "2^20", "2^40", "negate", "pairbig", "2^61", "2^62", "2^61+1", "2^60+1", "-2^61", "2^62+2"}
+var bodyClasses = []string{"random", "truncate", "timestamp", "timestamp2"}
 
 func isVarSite(kind string) bool {
 	switch kind {
@@ -415,6 +550,20 @@ func varReplacement(class string, old []byte) []byte {
 		return L(1 << 40)
 	case "negate":
 		return L(-cur)
+	// counts and lengths whose product with an item width (4, 8, 16, 24, ...)
+	// wraps around 64 bits to nothing or next to nothing
+	case "2^61":
+		return L(1 << 61)
+	case "2^62":
+		return L(1 << 62)
+	case "2^61+1":
+		return L(1<<61 + 1)
+	case "2^60+1":
+		return L(1<<60 + 1)
+	case "-2^61":
+		return L(-(1 << 61))
+	case "2^62+2":
+		return L(1<<62 + 2)
 	}
 	return old
 }
@@ -458,9 +607,12 @@ func applyField(payload []byte, s ref.Site, f C06Fault) ([]byte, string) {
 				k = f.Val % s.Len
 			}
 			repl = old[:k]
-		case "timestamp":
+		case "timestamp", "timestamp2":
 			// replace a string body by a nasty timestamp text, length prefix recomputed
 			t := timeDict[f.Val%len(timeDict)]
+			if class == "timestamp2" {
+				t = timeText2(f.Val)
+			}
 			if s.Kind == "str-body" {
 				// find the length prefix just before the body: rewrite both
 				p := s.Off - 1
@@ -471,6 +623,9 @@ func applyField(payload []byte, s ref.Site, f C06Fault) ([]byte, string) {
 				out = ref.AppendLong(out, int64(len(t)))
 				out = append(out, t...)
 				out = append(out, payload[s.Off+s.Len:]...)
+				if class == "timestamp2" {
+					return out, fmt.Sprintf("%s@%s:=timestamp2[%s]", s.Kind, s.Path, timeText2Kind(f.Val))
+				}
 				return out, fmt.Sprintf("%s@%s:=timestamp[%d]", s.Kind, s.Path, f.Val%len(timeDict))
 			}
 			repl = []byte(t)
@@ -707,7 +862,7 @@ func (c06Prop) Generate(seed uint64, idx int, tier string) *Plan {
 		pl.File = fs
 	} else {
 		pl.Src = "wire"
-		pl.Wire = r.PickInt([]int{0, 1, 1, 1, 2, 2, 2, 3, 3, 3, 4, 4, 5, 6, 6}) // W0 (zero-width items, known finding D11) less often
+		pl.Wire = r.PickInt([]int{0, 1, 1, 1, 2, 2, 2, 3, 3, 3, 4, 4, 5, 6, 6, 7, 7}) // W0 (zero-width items, known finding D11) less often
 		pl.WSeed = r.Uint64()
 		pl.WN = r.Range(1, 6)
 		pl.WCodec = r.Pick([]string{"null", "null", "null", "deflate", "snappy", "none"})
@@ -752,6 +907,15 @@ func (c06Prop) Generate(seed uint64, idx int, tier string) *Plan {
 			c.Faults = append(c.Faults, genC06Fault(r))
 		}
 		pl.Cases = append(pl.Cases, c)
+	}
+	// the timestamp parser as an entry point of its own: texts with one
+	// component at or beyond a boundary, one text per case
+	for i := 0; i < 24; i++ {
+		f := C06Fault{Kind: "timetext", Val: r.Intn(1 << 16)}
+		if r.P(1, 6) {
+			f.Class = "dict"
+		}
+		pl.Cases = append(pl.Cases, C06Case{Faults: []C06Fault{f}})
 	}
 	return &Plan{Prop: "C06", Seed: seed, Idx: idx, Tier: tier, C06: pl}
 }
@@ -812,6 +976,7 @@ type c06Damaged struct {
 	kinds     []string // signature parts: kind/sitekind/class/variant
 	effective bool
 	schema    string
+	timeTexts []string // "timetext" faults: texts offered to the timestamp entry point instead of a damaged artifact
 }
 
 // applyCase builds the damaged artifact for one case.
@@ -859,6 +1024,12 @@ func (a *c06Artifact) applyCase(c C06Case) c06Damaged {
 			d.desc = append(d.desc, fmt.Sprintf("block %d %s (%s)", j, desc, variant))
 			d.kinds = append(d.kinds, fmt.Sprintf("field/%s%s/%s/%s", s.Kind, zw, cls, variant))
 			structural = true
+			d.effective = true
+		case "timetext":
+			t, kind := timeTextFor(f)
+			d.timeTexts = append(d.timeTexts, t)
+			d.desc = append(d.desc, fmt.Sprintf("timestamp text %q", t))
+			d.kinds = append(d.kinds, "timetext/"+kind)
 			d.effective = true
 		case "schema":
 			var desc string
@@ -1073,6 +1244,16 @@ func (c06Prop) CPUBudget() time.Duration {
 // the schema text (which can turn any item type into one). This is the input
 // class of known finding D11 (unbounded count of zero-width items).
 func c06ZeroWidthPossible(pl *C06Plan, k int) bool {
+	// a case that only offers texts to the timestamp parser involves no items at all
+	if !pl.Enum && k >= 0 && k < len(pl.Cases) && len(pl.Cases[k].Faults) > 0 {
+		onlyTime := true
+		for _, f := range pl.Cases[k].Faults {
+			onlyTime = onlyTime && f.Kind == "timetext"
+		}
+		if onlyTime {
+			return false
+		}
+	}
 	if pl.Src == "wire" && wires[pl.Wire%len(wires)].Name == "W0" {
 		return true
 	}
@@ -1265,6 +1446,34 @@ func (c06Prop) Execute(p *Plan, run *Run) any {
 			run.Faults.Inc(faultKindOf(kd))
 		}
 		run.Log.Add("case %d len=%d", k, len(d.file))
+		if d.timeTexts != nil {
+			if timeTextCodec == nil {
+				ts, err := avro.SchemaFromString(`{"type":"record","name":"TT","fields":[{"name":"t","type":"string"},{"name":"p","type":["null","string"]},{"name":"n","type":["null","string"]}]}`)
+				if err == nil {
+					timeTextCodec, err = ts.Codec(TimeTextT{})
+				}
+				if err != nil {
+					run.Infra("time-text codec: " + err.Error())
+					return nil
+				}
+			}
+			for _, t := range d.timeTexts {
+				body := timeTextBody(t)
+				o := c06Call(func() (int, error) {
+					rb := avro.NewReadBuf(body)
+					defer func() { rb.ExtractResourceBank().Close() }()
+					var out TimeTextT
+					if err := timeTextCodec.Read(rb, unsafe.Pointer(&out)); err != nil {
+						return 0, err
+					}
+					return 1, nil
+				})
+				if !judge(k, c, "TimeCodec.Read", "time", &d, o, len(body)) {
+					return nil
+				}
+			}
+			continue
+		}
 		for _, t := range targets {
 			var o c06Outcome
 			if d.rerr < 0 && pl.Chunks.Kind != "" {
